@@ -89,7 +89,7 @@ func TokChar(i int) rune { return 'a' + rune(i) }
 // section, 2 = continuation with a trailing backslash instead of a leading '|',
 // 4 = comments and blank lines, 8 = parser section first, 16 = two files (LoxFiles),
 // 32 (with 1) = literal aliases for all tokens instead of every other one.
-func (g *G) Lox() string {
+func (g *G) loxLF() string {
 	var lx, ps strings.Builder
 	lx.WriteString("@lexer\n")
 	tokIdx := map[string]int{}
@@ -152,6 +152,24 @@ func (g *G) Lox() string {
 	return lx.String() + "\n" + ps.String()
 }
 
+// Lox renders the grammar; on top of the spellings of loxLF: style bit 64 = CRLF line ends,
+// bit 128 = tabs instead of runs of four blanks, bit 256 = blanks after a continuation backslash
+// and at line ends.
+func (g *G) Lox() string {
+	text := g.loxLF()
+	if g.Style&128 != 0 {
+		text = strings.ReplaceAll(text, "    ", "\t")
+	}
+	if g.Style&256 != 0 {
+		text = strings.ReplaceAll(text, "\\\n", "\\ \t\n")
+		text = strings.ReplaceAll(text, "\n    |", " \n    |")
+	}
+	if g.Style&64 != 0 {
+		text = strings.ReplaceAll(text, "\n", "\r\n")
+	}
+	return text
+}
+
 // LoxFiles renders the grammar as one file, or (style bit 16) as two files:
 // the sections are split so that the file read first (by name) holds the parser
 // section when bit 8 is set and the lexer section otherwise.
@@ -159,7 +177,18 @@ func (g *G) LoxFiles() map[string]string {
 	if g.Style&16 == 0 {
 		return map[string]string{"g.lox": g.Lox()}
 	}
-	text := g.Lox()
+	crlf := g.Style&64 != 0
+	g2 := *g
+	g2.Style &^= 64
+	text := g2.Lox()
+	conv := func(m map[string]string) map[string]string {
+		if crlf {
+			for k, v := range m {
+				m[k] = strings.ReplaceAll(v, "\n", "\r\n")
+			}
+		}
+		return m
+	}
 	i := strings.Index(text, "\n@parser\n")
 	j := strings.Index(text, "\n@lexer\n")
 	var first, second string
@@ -169,9 +198,9 @@ func (g *G) LoxFiles() map[string]string {
 	case strings.HasPrefix(text, "@lexer") && i >= 0:
 		first, second = text[:i+1], text[i+1:]
 	default:
-		return map[string]string{"g.lox": text}
+		return conv(map[string]string{"g.lox": text})
 	}
-	return map[string]string{"a.lox": first, "b.lox": second}
+	return conv(map[string]string{"a.lox": first, "b.lox": second})
 }
 
 // ---------------------------------------------------------------------------
